@@ -414,3 +414,75 @@ Theorem c08_footnote_list :
 Proof. exact DomInline.c08_footnote_list. Qed.
 Print Assumptions c08_footnote_list.
 
+
+(* the same for every document, tables included (Proofs/DomLinksTables.v): the links of the render
+   tree are the kept <a href> elements of the DOM in document order (rows directly under table
+   and other stray children are dropped with their links); the footnote list is the sub-sequence
+   of them that the layout visits (a cell that gets no width is skipped: recorded finding) *)
+From H2T Require Import Base Tagged Wrap Sub Css Dom Render Api CssParse Proofs.CssTotal Proofs.WrapInv Proofs.RenderWidth Proofs.Conserve Proofs.Footnotes Proofs.AnnBalance Proofs.RenderConserve Proofs.OptionRel Proofs.Compose Proofs.RenderTotal Proofs.FragStream Proofs.SimRel Proofs.Prune Proofs.DomRel Proofs.DomInline Proofs.DomLinksTables.
+
+Theorem process_glinks :
+  forall (sd : styledata) (udc : bool) (inl : list (text * text) -> res (list styledecl)) 
+         (n : node) (p : list anc) (idx : Z) (t : rnode),
+       process sd udc inl n p idx = Ok (Some t) -> glinks t = dlinks_t sd udc inl n p idx.
+Proof. exact DomLinksTables.process_glinks. Qed.
+Print Assumptions process_glinks.
+
+Theorem process_nothing_glinks :
+  forall (sd : styledata) (udc : bool) (inl : list (text * text) -> res (list styledecl)) 
+         (n : node) (p : list anc) (idx : Z),
+       process sd udc inl n p idx = Ok None -> dlinks_t sd udc inl n p idx = [].
+Proof. exact DomLinksTables.process_nothing_glinks. Qed.
+Print Assumptions process_nothing_glinks.
+
+Theorem process_all_links :
+  forall (sd : styledata) (udc : bool) (inl : list (text * text) -> res (list styledecl)) 
+         (n : node) (p : list anc) (idx : Z) (t : rnode),
+       f_nb (dtag_t n) = true ->
+       process sd udc inl n p idx = Ok (Some t) -> all_links t = dlinks_t sd udc inl n p idx.
+Proof. exact DomLinksTables.process_all_links. Qed.
+Print Assumptions process_all_links.
+
+Theorem dom_tree_links_t :
+  forall (sd : styledata) (udc : bool) (inl : list (text * text) -> res (list styledecl))
+         (doc : list node) (tree : rnode),
+       dom_to_render_tree sd udc inl doc = Ok tree -> all_links tree = dom_links_t sd udc inl doc.
+Proof. exact DomLinksTables.dom_tree_links_t. Qed.
+Print Assumptions dom_tree_links_t.
+
+Theorem c08_tree_links_t :
+  forall (inline_styles : list (text * text) -> res (list styledecl))
+         (doc_rules : list node -> res (list ruleset)) (c : config) (doc : list node) 
+         (tree : rnode),
+       to_render_tree inline_styles doc_rules c doc = Ok tree ->
+       all_links tree = doc_links_t inline_styles doc_rules c doc.
+Proof. exact DomLinksTables.c08_tree_links_t. Qed.
+Print Assumptions c08_tree_links_t.
+
+Theorem dlinks_t_table_free :
+  forall (sd : styledata) (udc : bool) (inl : list (text * text) -> res (list styledecl)) 
+         (n : node) (p : list anc) (idx : Z),
+       DomInline.table_free n = true -> dlinks_t sd udc inl n p idx = DomInline.dlinks sd udc inl n p idx.
+Proof. exact DomLinksTables.dlinks_t_table_free. Qed.
+Print Assumptions dlinks_t_table_free.
+
+Theorem c08_footnote_list_t :
+  forall (inline_styles : list (text * text) -> res (list styledecl))
+         (doc_rules : list node -> res (list ruleset)) (c : config) (doc : list node) 
+         (tree : rnode) (width : N) (s : subr),
+       to_render_tree inline_styles doc_rules c doc = Ok tree ->
+       render_tree (c_deco c) (c_min_wrap c) (render_options c) width tree = Ok s ->
+       let L := link_targets (c_deco c) (c_min_wrap c) (render_options c) tree width in
+       exists (st : rstate) (body : subr),
+         render_node (c_deco c) (c_min_wrap c) tree
+           {| stack := [sub_new width (render_options c)]; links := [] |} = Ok st /\
+         stack st = [body] /\
+         links st = L /\
+         subseq L (doc_links_t inline_styles doc_rules c doc) /\
+         match (if o_footnotes (render_options c) then L else []) with
+         | [] => s = body
+         | _ :: _ => exists b1 : subr, start_block body = Ok b1 /\ s = fmt_links b1 (finalise_from 1 L)
+         end.
+Proof. exact DomLinksTables.c08_footnote_list_t. Qed.
+Print Assumptions c08_footnote_list_t.
+
